@@ -256,7 +256,9 @@ def r6_r2_line(ctx, sym):
         ctx.ok('R2', 'syntax_error.__init__:optional-uses', sample='line/col_offset guarded before arithmetic')
     # R6: syntax_error.__init__ executed abstractly: the reported line is CPython's line plus the section offset
     from .. import symexec
-    for line, col in ((3, 2), (1, 0), (None, None), (7, None)):
+    # (lines 9 and 12 lie past the end of the eight-line text: CPython counts lone CR / form feed as line breaks,
+    # str.split('\n') does not)
+    for line, col in ((3, 2), (1, 0), (None, None), (7, None), (9, 0), (12, 1), (8, 200)):
         for filename, offsets, want_off in (('student.py', {'student.py': 10}, 10), ('other.py', {'student.py': 10}, 0),
                                             ('student.py', {}, 0)):
             rec = symexec.Recorder()
